@@ -5,8 +5,6 @@
 //@extract src/methods/st_dev.rs struct:StDev
 //@end
 
-pub open spec fn sq_fn() -> spec_fn(R) -> real { |x: R| x@ * x@ }
-pub open spec fn id_fn() -> spec_fn(R) -> real { |x: R| x@ }
 
 impl StDev {
 	pub open spec fn n(&self) -> real { self.window.cap() as real }
